@@ -1,5 +1,6 @@
 import CifModel.Lemmas.ParseCBSkip
 import CifModel.Lemmas.ParseCBErase
+import CifModel.Lemmas.ParseCBMirror
 import CifModel.Spec.Traversal
 /-
   Property C15 — parse-time callbacks mirror the document and steer what is stored.
@@ -285,6 +286,14 @@ theorem C15_syntax_only_same_log (p : Prog) (hp : HandleBlind p) (toks : List To
   rw [h.2]
   simp [eraseSt, List.map_reverse]
 
+/-- **Mirror, value level** (first building block of `C15_all_continue_mirror_full`): for every value `v` (any nesting of
+    lists and tables; table entries carrying their key spelling as normalised key, as the parser model stores them),
+    every continuation `rest` of the token sequence, every state and enough fuel, parse_value on the layout-free tokens of
+    `v` consumes exactly those tokens, returns CIF_OK and rebuilds `v` (no callback, depth untouched). -/
+theorem C15_value_mirror (v : V) (rest : List Tok) (s : St) (b : Bool) (fuel : Nat) (hw : wfV v = true) (hf : szV v ≤ fuel) :
+    parseValue fuel (atb s (valueToks v ++ rest) b) = (OK, v, atb s rest false) :=
+  value_mirror v rest s b fuel hw hf
+
 -- ---- the repaired defect F33, as a statement about the pinned variant ------------------------------------------------
 
 /-- before fix 43d0bb7 a positive answer of handle_loop_start did not skip the loop body: the packets were parsed (with
@@ -336,6 +345,8 @@ example : ((parseCB (fun k _ => if k = 1 then -1 else 0) true (tokensOf C15_demo
 example : (parseCB (fun k _ => if k = 2 then 7 else 0) true (tokensOf C15_demo)).2.1 = 7 := by decide +kernel
 -- the balance hypotheses are satisfiable: entry at depth 0 and at depth 2
 example : Bal 0 1 ∧ Bal 2 2 ∧ ¬ Bal 2 1 := by unfold Bal; omega
+-- the value-mirror hypotheses on a nested value
+example : wfV (.lst [.unk, .tbl [((a!"k"), (a!"k"), .lst [.na])]]) = true ∧ szV (.lst [.unk, .tbl [((a!"k"), (a!"k"), .lst [.na])]]) = 13 := by decide +kernel
 -- the sub-structure relation on the demo: a filtered parse (block_start answers SKIP_CURRENT; an item answers SKIP_CURRENT)
 example : C15_subConts (parseCB (fun k _ => if k = 1 then -1 else 0) true (tokensOf C15_demo)).2.2 (denote C15_demo) = true := by
   decide +kernel
